@@ -21,6 +21,7 @@ import (
 	ob "github.com/daeuniverse/dae/component/outbound"
 	"github.com/daeuniverse/dae/component/outbound/dialer"
 	"github.com/daeuniverse/dae/component/routing"
+	"github.com/daeuniverse/dae/verifx/vsched"
 	D "github.com/daeuniverse/outbound/dialer"
 	"github.com/daeuniverse/outbound/netproxy"
 	dnsmessage "github.com/miekg/dns"
@@ -40,10 +41,13 @@ var (
 	verifC18ProbeAnswers map[string][2]uint8 // name -> {A outcome, AAAA outcome}; absent: both families fail
 	verifC18ProbeDynamic func(host string) ([2]uint8, bool)
 	verifC18ProbeCalls   = map[string]int{}
+	verifC18ProbeTotal   int // calls of the stubbed resolver made under the deterministic scheduler (deterministic count)
+	verifC18ProbeLiteral int // those of them whose host was an IP literal (handed on to the real resolver's literal path)
 )
 
 // VerifC18InstallProbeResolver replaces the network resolver used by probeAndUpdateRealDomain with a
-// per-family table (dynamic, when not nil, answers names the table does not hold) and lengthens the
+// per-family table (dynamic, when not nil, answers names the table does not hold; a host that is an IP literal is
+// handed to the real netutils.ResolveIp46, which answers a literal with itself without any network) and lengthens the
 // negative-cache TTL (a package variable, 10 s in production) so that a negative entry made through the
 // production path outlives one run of the check. The stub fills Ip46 / err4 / err6 independently per
 // family, like netutils.ResolveIp46 does.
@@ -53,12 +57,25 @@ func VerifC18InstallProbeResolver(answers map[string][2]uint8, dynamic func(host
 	verifC18ProbeDynamic = dynamic
 	verifC18ProbeMu.Unlock()
 	realDomainNegativeCacheTTL = time.Hour
-	resolveIp46ForRealDomainProbe = func(ctx context.Context, _ netproxy.Dialer, _ netip.AddrPort, host string, _ string, _ bool) (*netutils.Ip46, error, error) {
+	resolveIp46ForRealDomainProbe = func(ctx context.Context, d netproxy.Dialer, dns netip.AddrPort, host string, network string, race bool) (*netutils.Ip46, error, error) {
+		_, litErr := netip.ParseAddr(host)
+		managed := vsched.Active() // called from a thread of a deterministic-scheduler execution (legs F, H)
 		verifC18ProbeMu.Lock()
 		verifC18ProbeCalls[host]++
+		if managed {
+			verifC18ProbeTotal++
+			if litErr == nil {
+				verifC18ProbeLiteral++
+			}
+		}
 		v, ok := verifC18ProbeAnswers[host]
 		dyn := verifC18ProbeDynamic
 		verifC18ProbeMu.Unlock()
+		if litErr == nil {
+			// A host that is an IP literal never reaches the network in production either: the real resolver
+			// (netutils.ResolveIp46 -> resolve) answers it with itself. Keep exactly that behaviour by calling it.
+			return netutils.ResolveIp46(ctx, d, dns, host, network, race)
+		}
 		if !ok && dyn != nil {
 			v, ok = dyn(host)
 		}
@@ -81,6 +98,15 @@ func VerifC18InstallProbeResolver(answers map[string][2]uint8, dynamic func(host
 		}
 		return out, err4, err6
 	}
+}
+
+// VerifC18ProbeResolverTotals: (calls of the resolver seam made from managed threads of the deterministic
+// scheduler, those of them whose host was an IP literal). Probes running as plain goroutines (legs A-E) are not
+// counted here: their number at any moment depends on real scheduling.
+func VerifC18ProbeResolverTotals() (int, int) {
+	verifC18ProbeMu.RLock()
+	defer verifC18ProbeMu.RUnlock()
+	return verifC18ProbeTotal, verifC18ProbeLiteral
 }
 
 // VerifC18ProbeResolverCalls: how often the stubbed resolver was asked about host.
@@ -288,24 +314,51 @@ func (e *VerifC18Env) Close() {
 // through DnsController.NormalizeAndCacheDnsResp_, the function the DNS path calls for every response it
 // is about to hand to a client. scoped selects an as-is scoped response key ("key|asis@…") or the bare key.
 func (e *VerifC18Env) LearnDNS(qname string, qtype uint16, addrs []string, ttl uint32, scoped bool) error {
+	return e.LearnDNSResp(qname, qtype, VerifC18Resp{Addrs: addrs, TTL: ttl, Scoped: scoped})
+}
+
+// VerifC18Resp is the shape of one upstream message handed to NormalizeAndCacheDnsResp_ (dialSend hands it every
+// message the upstream produced, whatever its response code).
+type VerifC18Resp struct {
+	NotResponse bool     // the QR bit is clear (a query echoed back)
+	Rcode       int      // 0 NOERROR, 2 SERVFAIL, 3 NXDOMAIN, 5 REFUSED ...
+	Addrs       []string // address records of the queried type (owner: qname, or Cname when set)
+	Cname       string   // non-empty: the answer section starts with "qname CNAME Cname"
+	SOA         bool     // authority section carries the zone's SOA (negative answers, RFC 2308)
+	TTL         uint32
+	Scoped      bool
+}
+
+func (e *VerifC18Env) LearnDNSResp(qname string, qtype uint16, r VerifC18Resp) error {
 	fq := dnsmessage.Fqdn(qname)
 	msg := &dnsmessage.Msg{}
-	msg.Response = true
-	msg.Rcode = dnsmessage.RcodeSuccess
+	msg.Response = !r.NotResponse
+	msg.Rcode = r.Rcode
 	msg.Question = []dnsmessage.Question{{Name: fq, Qtype: qtype, Qclass: dnsmessage.ClassINET}}
-	for _, a := range addrs {
+	owner := fq
+	if r.Cname != "" {
+		owner = dnsmessage.Fqdn(r.Cname)
+		msg.Answer = append(msg.Answer, &dnsmessage.CNAME{
+			Hdr: dnsmessage.RR_Header{Name: fq, Rrtype: dnsmessage.TypeCNAME, Class: dnsmessage.ClassINET, Ttl: r.TTL}, Target: owner})
+	}
+	for _, a := range r.Addrs {
 		ip := netip.MustParseAddr(a)
-		hdr := dnsmessage.RR_Header{Name: fq, Rrtype: qtype, Class: dnsmessage.ClassINET, Ttl: ttl}
+		hdr := dnsmessage.RR_Header{Name: owner, Rrtype: qtype, Class: dnsmessage.ClassINET, Ttl: r.TTL}
 		if qtype == dnsmessage.TypeA {
 			msg.Answer = append(msg.Answer, &dnsmessage.A{Hdr: hdr, A: ip.AsSlice()})
 		} else {
 			msg.Answer = append(msg.Answer, &dnsmessage.AAAA{Hdr: hdr, AAAA: ip.AsSlice()})
 		}
 	}
+	if r.SOA {
+		msg.Ns = append(msg.Ns, &dnsmessage.SOA{
+			Hdr: dnsmessage.RR_Header{Name: "example.", Rrtype: dnsmessage.TypeSOA, Class: dnsmessage.ClassINET, Ttl: 300},
+			Ns:  "ns.example.", Mbox: "hostmaster.example.", Serial: 1, Refresh: 7200, Retry: 3600, Expire: 1209600, Minttl: 300})
+	}
 	dc := e.CP.dnsController
 	base := dc.cacheKey(fq, qtype)
 	key := base
-	if scoped {
+	if r.Scoped {
 		key = dc.responseCacheKey(base, &udpRequest{realDst: netip.MustParseAddrPort("192.0.2.53:53")}, consts.DnsRequestOutboundIndex_AsIs, nil)
 	}
 	return dc.NormalizeAndCacheDnsResp_(msg, key)
